@@ -14,7 +14,21 @@ NOT_SHOWN = {
         "nothing is proved ABOUT the numpy reductions (e.g. that np.median is the median): they are arbitrary functions in the theorems and ported functions in the stream",
         "short paths (C04/C06, Props/C06 `short_paths_edge_padded`): indexing the tiled path of the C08 tiling model equals clampGet = the object's LAST pose at "
         "every index beyond its own path, with the witness `cyclic_tiling_differs`; the interface streams (iface) run min / max only (integer model), "
-        "median / std go through getB directly in level2f"],
+        "median / std go through getB directly in level2f",
+        "audit2: (a) `pixel_agg_is_reduction_of_sensor_frame_values` is stated for sumup=False (either squeeze: `..._any_squeeze`; the data do not depend on squeeze BY "
+        "DEFINITION of the model, `getBHF_data_squeeze_irrelevant`); with sumup=True the statement is Props/C05 `sumup_of_pixel_agg_is_sum_of_aggregates` (sum over the sources of "
+        "the aggregated values). (b) the handedness flip is an ABSTRACT function `flipX : V -> V` in every theorem: they say that it is applied to a left-handed "
+        "sensor's own values after the rotation and before the reduction, NOT that it negates the x-component -- that is the definition `flipX a = (-a.x, a.y, a.z)` in "
+        "Driver/Level2Fam.lean / Level2FFam.lean, tied by the streams (left-handed sensors: counter `of_these_left_handed`). (c) the reduction is modelled as a function "
+        "of the ROW-MAJOR FLATTENED pixel list; numpy reduces over several pixel axes at once (`axis=tuple(...)`) when all shapes are equal: that this is the same "
+        "function of the flattened list is assumed for every numpy reduction (true for the symmetric ones), exercised by the streams with (n1, n2) pixel shapes. "
+        "(d) a reduction of an EMPTY pixel list is 0 in the model (`aggList [] = 0`, `npMin [] = 0`); numpy raises for min / max of an empty axis -- a zero-pixel "
+        "sensor passes `Sens.WF` but not the library's validators. (e) carrier: the theorem is over an abstract group; `..._on_driver_carrier` (audit2) transfers it to "
+        "the `M3 Int` evaluation for octahedral matrices and ANY `f : List (V3 Int) -> V3 Int`, with an applied example on mixed pixel shapes (2,) / (3,), a left-handed "
+        "rotating sensor and a short sensor path. The level2f stream evaluates `getBHF` at `M3 Float` / `V3 Float`, where no theorem applies: link = same polymorphic definition. "
+        "audit2 added `named_numpy_reduction_is_reduction_of_sensor_frame_values`: the level2f driver expression (`byName name = some (some f)`, `getBHF ... (some f)`) at "
+        "V3 Real with the octahedral group acting on it (Lemmas/Audit2C04.lean) is an instance of the theorem, applied in an example with Model/PixelAgg.npMedian -- "
+        "exact real arithmetic, octahedral rotations only; nothing is proved about Float"],
  "05": ["linearity of each class's kernel in its excitation (kernel-level, see C01/C02); proved here: the marshalling preserves it for any F"],
  "06": ["batch-level control flow inside kernels (rowwise_c: trimesh grouping, segment early return, cel n<10) — kernel model pending",
         "np.squeeze / np.expand_dims / reshape semantics are assumed as modelled (shape list + unchanged row-major data), exercised by the stream"],
